@@ -1,5 +1,6 @@
 import PycModel.Proofs.FullExpr
 import PycModel.Proofs.TypeModify
+import PycModel.Proofs.Pointer
 /-!
 # Declarators are read inside-out, as C99 6.7.5 says
 
@@ -15,10 +16,6 @@ open PycModel PycModel.View PycModel.OperandId PycModel.FullExpr PycModel.TypeMo
 
 variable {env : Env}
 
-theorem bnd {α β} (m : P α) (f : α → P β) (s : PState) :
-    (m >>= f) s = match m s with | .ok a s' => f a s' | .err e => .err e := rfl
-theorem pur {α} (a : α) (s : PState) : (pure a : P α) s = .ok a s := rfl
-
 /-- optional array bound -/
 def ont : Option X → Nat | none => 0 | some e => e.ntoks
 def oflat : Option X → List Tk | none => [] | some e => e.flat
@@ -31,21 +28,6 @@ inductive D where
   | ptr (stars : List (List Tk)) (d : D)   -- each star with its qualifier tokens
   | arr (d : D) (dim : Option X)
   | fn0 (d : D)
-
-def starsNtoks : List (List Tk) → Nat
-  | [] => 0
-  | q :: r => 1 + q.length + starsNtoks r
-
-def starsFlat : List (List Tk) → List Tk
-  | [] => []
-  | q :: r => ("TIMES", "*") :: (q ++ starsFlat r)
-
-/-- the stars as the parser collects them: qualifier spellings and the coordinate of the `*` -/
-def starPairs (n : Nat) : List (List Tk) → List (List Val × Coord)
-  | [] => []
-  | q :: r => (q.map (fun t => Val.str t.2), ⟨"", n, some (n + 1)⟩) :: starPairs (n + 1 + q.length) r
-
-def pairM (qc : List Val × Coord) : M := .ptr qc.1 (some qc.2)
 
 namespace D
 
@@ -111,10 +93,6 @@ inductive WFD : D → Prop
   | arr (d dim) : WFD d → d.isDirect = true → (∀ e, dim = some e → WFX 1 e) → WFD (.arr d dim)
   | fn0 (d) : WFD d → d.isDirect = true → WFD (.fn0 d)
 
-theorem starsFlat_length : ∀ stars, (starsFlat stars).length = starsNtoks stars
-  | [] => rfl
-  | q :: r => by simp [starsFlat, starsNtoks, starsFlat_length r]; omega
-
 theorem oflat_length (o : Option X) : (oflat o).length = ont o := by
   cases o <;> simp [oflat, ont, FullExpr.flat_length]
 
@@ -157,10 +135,6 @@ theorem coordOfVal_chain (ms : List M) (t : Val) :
   cases ms with
   | nil => rfl
   | cons m ms => exact coordOfVal_wrap m _
-
-theorem starPairs_ne_nil (n : Nat) : ∀ stars : List (List Tk), stars ≠ [] → starPairs n stars ≠ []
-  | [], h => absurd rfl h
-  | _ :: _, _ => by simp [starPairs]
 
 /-- every node of the chain has a coordinate -/
 theorem chain_coords {d : D} (hwf : WFD d) : ∀ n, (∀ m ∈ d.chain n, ∃ c, m.coord = some c) ∧
@@ -222,103 +196,6 @@ theorem valCoord_node {v : Val} (h : v.isNode = true) (site : String) (s : PStat
   cases v <;> simp [Val.isNode] at h
   simp [valCoord, Val.coord?, attrOrCrash, X.coordOfVal]
   rfl
-
-/-! ## pointers -/
-
-theorem not_mem_inSet {k : String} {l : List String} (h : k ∉ l) : inSet (some k) l = false := by
-  simp [inSet, h]
-theorem mem_inSet {k : String} {l : List String} (h : k ∈ l) : inSet (some k) l = true := by
-  simp [inSet, h]
-
-/-- `_parse_type_qualifier_list` -/
-theorem quals_loop : ∀ (q : List Tk) (acc : List Val) (s : PState) (rest : List Tk) (F : Nat),
-    (∀ t ∈ q, t.1 ∈ typeQualifier) → (∀ k v r, rest = (k, v) :: r → k ∉ typeQualifier) →
-    SeesT env s (q ++ rest) → q.length + 1 ≤ F →
-    ∃ s', run F (.typeQualifierListLoop acc) s = .ok (acc ++ q.map (fun t => Val.str t.2)) s' ∧
-      SeesT env s' rest ∧ s'.idx = s.idx + q.length
-  | [], acc, s, rest, F, _, hrest, hs, hF => by
-    obtain ⟨G, rfl⟩ : ∃ G, F = G + 1 := ⟨F - 1, by simp at hF; omega⟩
-    have hs0 : SeesT env s rest := by simpa using hs
-    obtain ⟨s1, h1, hs1, hi1, _⟩ := peekType_spec s _ hs0
-    have hset : inSet (rest.head?.map (·.1)) typeQualifier = false := by
-      cases rest with
-      | nil => rfl
-      | cons t r => obtain ⟨k, v⟩ := t; exact not_mem_inSet (hrest k v r rfl)
-    refine ⟨s1, ?_, hs1, by simpa using hi1⟩
-    show pTypeQualifierListLoop (run G) acc s = _
-    simp [pTypeQualifierListLoop, bnd, h1, hset, pur]
-  | (k, v) :: q, acc, s, rest, F, hq, hrest, hs, hF => by
-    obtain ⟨G, rfl⟩ : ∃ G, F = G + 1 := ⟨F - 1, by simp at hF; omega⟩
-    have hs0 : SeesT env s ((k, v) :: (q ++ rest)) := by simpa using hs
-    obtain ⟨s1, h1, hs1, hi1, _⟩ := peekType_spec s _ hs0
-    obtain ⟨s2, h2, hs2, _, hi2, _⟩ := advance_spec s1 k v _ hs1
-    have hset : inSet (some k) typeQualifier = true := mem_inSet (hq (k, v) List.mem_cons_self)
-    obtain ⟨s3, h3, hs3, hi3⟩ := quals_loop q (acc ++ [.str v]) s2 rest G
-      (fun t ht => hq t (List.mem_cons_of_mem _ ht)) hrest hs2 (by simp at hF ⊢; omega)
-    refine ⟨s3, ?_, hs3, by simp; omega⟩
-    show pTypeQualifierListLoop (run G) acc s = _
-    simp [pTypeQualifierListLoop, bnd, h1, hset, h2, h3, pur]
-
-/-- the star loop of `_parse_pointer` -/
-theorem pointer_loop : ∀ (stars : List (List Tk)) (acc : List (List Val × Coord)) (s : PState) (rest : List Tk) (F : Nat),
-    (∀ q ∈ stars, ∀ t ∈ q, t.1 ∈ typeQualifier) →
-    (∀ k v r, rest = (k, v) :: r → k ≠ "TIMES" ∧ k ∉ typeQualifier) →
-    SeesT env s (starsFlat stars ++ rest) → starsNtoks stars + 2 ≤ F →
-    ∃ s', run F (.pointerLoop acc) s = .ok (acc ++ starPairs s.idx stars) s' ∧ SeesT env s' rest ∧
-      s'.idx = s.idx + starsNtoks stars
-  | [], acc, s, rest, F, _, hrest, hs, hF => by
-    obtain ⟨G, rfl⟩ : ∃ G, F = G + 1 := ⟨F - 1, by omega⟩
-    have hs0 : SeesT env s rest := by simpa [starsFlat] using hs
-    obtain ⟨s1, h1, hs1, hi1⟩ := accept_other s rest "TIMES" hs0 (fun k v r h => (hrest k v r h).1)
-    refine ⟨s1, ?_, hs1, by simpa [starsNtoks] using hi1⟩
-    show pPointerLoop (run G) acc s = _
-    simp [pPointerLoop, bnd, h1, pur, starPairs]
-  | q :: r, acc, s, rest, F, hq, hrest, hs, hF => by
-    obtain ⟨G, rfl⟩ : ∃ G, F = G + 1 := ⟨F - 1, by omega⟩
-    simp only [starsNtoks] at hF
-    have hs0 : SeesT env s (("TIMES", "*") :: (q ++ (starsFlat r ++ rest))) := by
-      simpa [starsFlat, List.append_assoc] using hs
-    obtain ⟨s1, h1, hs1, hi1, _⟩ := accept_same s "TIMES" "*" _ hs0
-    have hnext : ∀ k v r', starsFlat r ++ rest = (k, v) :: r' → k ∉ typeQualifier := by
-      intro k v r' h
-      cases r with
-      | nil => exact (hrest k v r' (by simpa [starsFlat] using h)).2
-      | cons q' r'' =>
-        simp only [starsFlat, List.cons_append, List.cons.injEq, Prod.mk.injEq] at h
-        rw [← h.1.1]; decide
-    obtain ⟨s2, h2, hs2, hi2⟩ := quals_loop q [] s1 _ G (hq q List.mem_cons_self) hnext hs1 (by omega)
-    obtain ⟨s3, h3, hs3, hi3⟩ := pointer_loop r (acc ++ [(q.map (fun t => Val.str t.2), ⟨"", s.idx, some (s.idx + 1)⟩)]) s2 rest G
-      (fun q' hq' => hq q' (List.mem_cons_of_mem _ hq')) hrest hs2 (by omega)
-    refine ⟨s3, ?_, hs3, by simp only [starsNtoks]; omega⟩
-    have e2 : s2.idx = s.idx + 1 + q.length := by omega
-    rw [e2] at h3
-    show pPointerLoop (run G) acc s = _
-    simp [pPointerLoop, bnd, h1, h2, tokCoord, pur, h3, starPairs]
-
-theorem foldl_ptr : ∀ (l : List (List Val × Coord)) (ms : List M),
-    l.foldl (fun ptr (qc : List Val × Coord) => mk .PtrDecl (some qc.2) [.list qc.1, ptr]) (chainVal ms .none) =
-      chainVal ((l.map pairM).reverse ++ ms) .none
-  | [], ms => by simp
-  | qc :: l, ms => by
-    have : mk .PtrDecl (some qc.2) [.list qc.1, chainVal ms .none] = chainVal (pairM qc :: ms) .none := rfl
-    simp only [List.foldl_cons, this, foldl_ptr l (pairM qc :: ms), List.map_cons, List.reverse_cons,
-      List.append_assoc, List.singleton_append]
-
-/-- `_parse_pointer` -/
-theorem pointer_ok (stars : List (List Tk)) (s : PState) (rest : List Tk) (F : Nat)
-    (hq : ∀ q ∈ stars, ∀ t ∈ q, t.1 ∈ typeQualifier)
-    (hrest : ∀ k v r, rest = (k, v) :: r → k ≠ "TIMES" ∧ k ∉ typeQualifier)
-    (hs : SeesT env s (starsFlat stars ++ rest)) (hF : starsNtoks stars + 3 ≤ F) :
-    ∃ s', run F .pointer s = .ok (chainVal ((starPairs s.idx stars).map pairM).reverse .none) s' ∧ SeesT env s' rest ∧
-      s'.idx = s.idx + starsNtoks stars := by
-  obtain ⟨G, rfl⟩ : ∃ G, F = G + 1 := ⟨F - 1, by omega⟩
-  obtain ⟨s1, h1, hs1, hi1⟩ := pointer_loop stars [] s rest G hq hrest hs (by omega)
-  refine ⟨s1, ?_, hs1, hi1⟩
-  have := foldl_ptr (starPairs s.idx stars) []
-  simp only [chainVal, List.append_nil] at this
-  show pPointer (run G) s = _
-  simp [pPointer, bnd, h1, pur, this]
-
 
 /-! ## suffixes -/
 
